@@ -26,8 +26,8 @@ RULE = ("model: Predicates_MC enumerates every transaction of 1..MaxIn predicate
         "transaction, mode, completion order) behaviours replayed + distinct (event kind, verdict, sub-case) tuples of the traces, "
         "where the sub-case is (mode, memory, executor, number of predicates) for checks and (part, kind, field) for mutations")
 
-PROPERTIES_WIP = ["C20"]
-MANIFEST_WIP = {
+PROPERTIES = ["C20"]
+MANIFEST = {
     "C20": dict(category="model_checking",
                 technique="TLA+ specification Predicates (ideal signatures over the transaction id, abstract predicate outcomes "
                           "<<kind, gas needed>> defined from the instruction set for a program family, CheckSig / SpawnTask / "
